@@ -189,7 +189,7 @@ def ob_roundtrip(var_i: int, val_i: int) -> Optional[str]:
 # (b) the detyped mapping handed to a child reflects the values at launch time
 # ----------------------------------------------------------------------------
 OPS = ["set_dbg_0", "set_dbg_false", "set_u_1", "set_u_true", "set_list", "mutate_held", "reassign_held", "append_via_get",
-       "del_u", "swap_enter", "swap_exit", "mask_enter", "launch", "read_list", "set_same_list", "ov2_enter", "ovmask_enter", "caller_edits_mapping"]
+       "del_u", "swap_enter", "swap_exit", "mask_enter", "launch", "read_list", "set_same_list", "ov2_enter", "ovmask_enter", "caller_edits_mapping", "read_computed_default"]
 
 
 def _launch(env):
@@ -258,6 +258,9 @@ def _history(ops):
             m = env.detype()
             m["VF_FOR_ONE_CHILD"] = "0"
             m["U"] = "edited-by-caller"
+        elif op == "read_computed_default":
+            # a variable whose default is computed on first read ($XONSH_SYS_CONFIG_DIR: pure path arithmetic); the read stores it
+            env["XONSH_SYS_CONFIG_DIR"]
         elif op == "swap_exit":
             if stack:
                 stack.pop().__exit__(None, None, None)
@@ -353,10 +356,10 @@ OBLIGATIONS = [
                         "C10-single-empty-path-entry": _region_single_empty},
                symbolic="variable index, value index"),
     Obligation("child_env_cache", ob_cache,
-               bounds="histories of 1..3 (quick) / 4 (thorough) operations out of 18 (typed and untyped assignments with equal-comparing values, "
+               bounds="histories of 1..3 (quick) / 4 (thorough) operations out of 19 (typed and untyped assignments with equal-comparing values, "
                       "list assignment, in-place mutation through a held reference and through a read, delete, swap / mask / overlay enter "
-                      "(two overlays naming the same variables, an overlay mask) and exit, a caller editing the mapping it was handed); after every operation the mapping a child would receive is compared with a recomputation from scratch",
-               pre=["0 <= o0 < 18", "0 <= o1 < 18", "0 <= o2 < 18", "0 <= o3 < 18"],
+                      "(two overlays naming the same variables, an overlay mask) and exit, a caller editing the mapping it was handed, the first read of a computed default); after every operation the mapping a child would receive is compared with a recomputation from scratch",
+               pre=["0 <= o0 < 19", "0 <= o1 < 19", "0 <= o2 < 19", "0 <= o3 < 19"],
                parts={"quick": [dict(n=1), dict(n=2)] + [dict(n=3, o0=i) for i in range(len(OPS))],
                       "thorough": [dict(n=1), dict(n=2)] + [dict(n=3, o0=i) for i in range(len(OPS))]
                                   + [dict(n=4, o0=i, o1=j) for i in range(len(OPS)) for j in range(len(OPS))]},
